@@ -24,6 +24,7 @@ mod runners;
 mod sources;
 mod spsc;
 mod rec;
+mod robust;
 mod ring;
 mod util;
 
@@ -89,6 +90,7 @@ fn main() {
         "c11" => kernels::main(&opts),
         "c13" => hdlcprop::main(&opts),
         "c14" => formats::main(&opts),
+        "c15" => robust::main(&opts),
         "c16" => sources::main(&opts),
         "c17" => filesink::main(&opts),
         "c17-child" => {
